@@ -23,12 +23,14 @@ struct vt_in;
 #define VT_WITNESS(c) ((void)0)
 #define VT_LOAD() vt_replay_load(&in)
 #define VT_MALLOC(n) malloc((n) ? (n) : 1)
+#define VT_MUL_OVERFLOW_U32(a, b) ((uint64_t)(uint32_t)(a) * (uint32_t)(b) > 0xffffffffull)
 #else
 #define VT_ASSERT(c) __CPROVER_assert((c), #c)
 /* reachability witness: this "assertion" is REQUIRED to fail, i.e. c must be reachable */
 #define VT_WITNESS(c) __CPROVER_assert(!(c), "VT_WITNESS " #c)
 #define VT_LOAD() (in = nondet_vt_in())
 #define VT_MALLOC(n) malloc(n)
+#define VT_MUL_OVERFLOW_U32(a, b) __CPROVER_overflow_mult((uint32_t)(a), (uint32_t)(b))
 #endif
 
 #endif
